@@ -79,6 +79,11 @@ CHECKS = {
    text="Generated error-free buffers (arbitrary spacing, comments, case; CRLF and non-ASCII in feature campaigns; 1 in 8 already formatted) are sent to a long-lived language server (didOpen/didChange) followed by textDocument/formatting or onTypeFormatting; the returned edits must be ordered, non-overlapping and in range, and applied in the standard manner (UTF-16 columns, ranges relative to the original text, positions beyond a line clamped) must give exactly the text the `mos format` executable writes for the same file with default options.",
    note="A server that dies or declines (null) is not judged here (C14). Default formatter options only, as the property states.",
    ref="§5 C17"),
+ "C20": dict(
+   technique="exhaustive enumeration of session states x shutdown orders (x seeded delay draws) against live `mos lsp` processes with an LSP and a DAP client; exit-status / port / deadlock-witness oracle",
+   text="Every combination of 5 session states (no debugger, client connected, stopped at a breakpoint on the test runner, running a long test, test finished) and 4 orders (shutdown+exit, disconnect first, disconnect after shutdown, closing the pipe without shutdown) is driven against a real server process with generated delays; the process must exit with status 0 within 10 s and release its debug port. A process that is still alive is a violation only with a deadlock witness from /proc (all threads sleeping, no CPU consumed between samples).",
+   note="Thread schedules are sampled by timing (delays), not enumerated: a shutdown race with a microsecond window may stay unseen. The VICE back-end is not exercised (no emulator in the sandbox); only the built-in test-runner machine.",
+   ref="§5 C20"),
 }
 
 NOT_YET = {
